@@ -75,6 +75,10 @@ func parseSDL(root *Root, reader io.Reader) (types []Type, extends []*Extend, er
 				err = fmt.Errorf("%w, '%s' is not a valid schema directive at %d:%d", ErrParse, token, p.line, p.col)
 			}
 		}
+		if err == nil && len(token) == 0 && p.onDeck != 0 {
+			// Not a token character so it can never be consumed as a token.
+			err = fmt.Errorf("%w, unexpected character '%c' at %d:%d", ErrParse, p.onDeck, p.line, p.col)
+		}
 		if err != nil {
 			break
 		}
